@@ -45,17 +45,31 @@ theorem C18_central_diff_monomial_unscaled (A x d : Rat) (n : Nat) (hx : x ≠ 0
   congr 1
   grind
 
-/-- kinetic orders 0, 1, 2 are reproduced EXACTLY for every displacement; order 3 carries the bias `d²` -/
-theorem C18_scaled_exact_small_orders (d : Rat) (hd : d ≠ 0) :
-    scaledCD d 0 = 0 ∧ scaledCD d 1 = 1 ∧ scaledCD d 2 = 2 ∧ scaledCD d 3 = 3 + d ^ 2 := by
-  refine ⟨?_, ?_, ?_, ?_⟩ <;> (simp only [scaledCD]; grind)
+/-- kinetic orders 0, 1, 2 are reproduced EXACTLY by the entry the code computes, for every displacement, rate
+    constant and state; order 3 carries the bias `d²` -/
+theorem C18_scaled_exact_small_orders (A x d : Rat) (hA : A ≠ 0) (hx : x ≠ 0) (hd : d ≠ 0) :
+    coef true d x (A * (x * (1 + d)) ^ 0) (A * (x * (1 - d)) ^ 0) (A * x ^ 0) = some 0 ∧
+    coef true d x (A * (x * (1 + d)) ^ 1) (A * (x * (1 - d)) ^ 1) (A * x ^ 1) = some 1 ∧
+    coef true d x (A * (x * (1 + d)) ^ 2) (A * (x * (1 - d)) ^ 2) (A * x ^ 2) = some 2 ∧
+    coef true d x (A * (x * (1 + d)) ^ 3) (A * (x * (1 - d)) ^ 3) (A * x ^ 3) = some (3 + d ^ 2) := by
+  have e0 : scaledCD d 0 = 0 := by simp only [scaledCD]; grind
+  have e1 : scaledCD d 1 = 1 := by simp only [scaledCD]; grind
+  have e2 : scaledCD d 2 = 2 := by simp only [scaledCD]; grind
+  have e3 : scaledCD d 3 = 3 + d ^ 2 := by simp only [scaledCD]; grind
+  refine ⟨?_, ?_, ?_, ?_⟩
+  · rw [C18_central_diff_monomial A x d 0 hA hx hd, e0]
+  · rw [C18_central_diff_monomial A x d 1 hA hx hd, e1]
+  · rw [C18_central_diff_monomial A x d 2 hA hx hd, e2]
+  · rw [C18_central_diff_monomial A x d 3 hA hx hd, e3]
 
-/-- GENERAL ORDER: the scaled central difference never underestimates the kinetic order and
-    exceeds it by at most the factor `Π_{k<n} (1 + k·d²)` — a bias of order `d²` for every fixed `n`
-    (`prodUp d 3 = 1 + 3d² + 2d⁴`; the true value for `n = 3` is `3 + d²`).  Holds for every
-    displacement `d ≠ 0`, of either sign. -/
-theorem C18_scaled_error_bound (d : Rat) (hd : d ≠ 0) (n : Nat) :
-    (n : Rat) ≤ scaledCD d n ∧ scaledCD d n ≤ (n : Rat) * prodUp d n := by
+/-- GENERAL ORDER: the scaled elasticity the code computes for `v = A·xⁿ` never underestimates the kinetic order
+    `n` and exceeds it by at most the factor `Π_{k<n} (1 + k·d²)` — a bias of order `d²` for every fixed `n`
+    (`prodUp d 3 = 1 + 3d² + 2d⁴`; the true value for `n = 3` is `3 + d²`).  Holds for every displacement
+    `d ≠ 0`, of either sign, every rate constant and every state. -/
+theorem C18_scaled_error_bound (A x d : Rat) (n : Nat) (hA : A ≠ 0) (hx : x ≠ 0) (hd : d ≠ 0) :
+    ∃ s, coef true d x (A * (x * (1 + d)) ^ n) (A * (x * (1 - d)) ^ n) (A * x ^ n) = some s ∧
+      (n : Rat) ≤ s ∧ s ≤ (n : Rat) * prodUp d n := by
+  refine ⟨scaledCD d n, C18_central_diff_monomial A x d n hA hx hd, ?_⟩
   obtain ⟨h1, h2⟩ := cd_upper d hd n
   refine ⟨(cd_lower d hd n).1, Rat.le_trans h1 ?_⟩
   exact Rat.mul_le_mul_of_nonneg_left h2 (by exact_mod_cast Nat.zero_le n)
@@ -96,34 +110,175 @@ theorem C18_no_number_from_zero_division (normalized : Bool) (d up lo base : Rat
   · simp only [coef, quot]
     split <;> simp
 
+/-! ### response coefficients are the same quotient -/
+
+/-- every entry of a response-coefficient column is the SAME quotient `coef` the elasticities use: of the last rows of
+    the upper / lower steady state, scaled with the last row of the unperturbed steady state when normalised -/
+theorem C18_response_entries (d old : Rat) (u l nv : List (Name × Rat)) :
+    diffCol d old (some u) (some l)
+      = u.map (fun kv => (kv.1, (l.lookup kv.1).bind fun lv => coef false d old kv.2 lv 0)) ∧
+    normCol old (diffCol d old (some u) (some l)) (some nv)
+      = u.map (fun kv => (kv.1, (l.lookup kv.1).bind fun lv => (nv.lookup kv.1).bind fun n => coef true d old kv.2 lv n)) := by
+  constructor
+  · simp only [diffCol]
+    apply List.map_congr_left
+    intro kv _
+    cases l.lookup kv.1 with
+    | none => rfl
+    | some lv => simp [coef_false_eq]
+  · simp only [diffCol, normCol, List.map_map]
+    apply List.map_congr_left
+    intro kv _
+    simp only [Function.comp]
+    cases l.lookup kv.1 with
+    | none => simp
+    | some lv =>
+      simp only [Option.bind]
+      cases hn : nv.lookup kv.1 with
+      | none => cases quot (kv.2 - lv) (2 * d * old) <;> simp
+      | some n =>
+        simp only [coef]
+        cases quot (kv.2 - lv) (2 * d * old) <;> simp
+
+/-- a steady-state quantity that is INVERSELY proportional to the parameter (`x* = A / k`, e.g. the pool size of a
+    linear chain in its efflux constant): the normalised response coefficient the code computes is `-1 / (1 - d²)` -/
+theorem C18_response_inverse_order (A k d : Rat) (hA : A ≠ 0) (hk : k ≠ 0) (hd : d ≠ 0) (h1 : 1 + d ≠ 0) (h2 : 1 - d ≠ 0) :
+    coef true d k (A / (k * (1 + d))) (A / (k * (1 - d))) (A / k) = some (-1 / (1 - d ^ 2)) := by
+  have e1 : (2 * d * k) ≠ 0 := by grind
+  have e2 : (A / k) ≠ 0 := by
+    intro h
+    have : A = 0 := by
+      have := congrArg (· * k) h
+      simp at this
+      grind
+    exact hA this
+  simp only [coef, quot, e1, e2, if_false, if_true, Option.map_some]
+  congr 1
+  have hk1 : k * (1 + d) ≠ 0 := by grind
+  have hk2 : k * (1 - d) ≠ 0 := by grind
+  have hd2 : (1 - d ^ 2) ≠ 0 := by
+    have : 1 - d ^ 2 = (1 + d) * (1 - d) := by grind
+    rw [this]; grind
+  grind
+
+/-! ### the formulas and the structure of the CURRENT source (`translate/c18.py` → `Generated/C18Expr.lean`) -/
+
+open Mxl.Generated.C18 in
+/-- every table entry the model computes IS the source's expression: `coef` is the regenerated difference quotient
+    `(upper - lower) / (2 * displacement * old)`, times the regenerated factor `old / base` when normalised (and `none`
+    exactly where the float division has no finite value); the three routines use the same quotient and factor -/
+theorem C18_source_formulas (normalized : Bool) (d old up lo base : Rat) :
+    coef normalized d old up lo base =
+      (if 2 * d * old = 0 then none
+       else if normalized then (if base = 0 then none else some (varQuot up lo d old * varScale old base))
+       else some (varQuot up lo d old)) ∧
+    parQuot up lo d old = varQuot up lo d old ∧ respQuot up lo d old = varQuot up lo d old ∧
+    respFluxQuot up lo d old = varQuot up lo d old ∧ parScale old base = varScale old base ∧
+    respScale old base = varScale old base ∧ respFluxScale old base = varScale old base := by
+  refine ⟨?_, rfl, rfl, rfl, rfl, rfl, rfl⟩
+  simp only [coef, quot, varQuot, varScale]
+  by_cases h1 : 2 * d * old = 0
+  · simp [h1]
+  · simp only [h1, if_false]
+    cases normalized with
+    | false => simp
+    | true =>
+      by_cases h2 : base = 0
+      · simp [h2]
+      · simp [h2]
+
+open Mxl.Generated.C18 in
+/-- the perturbed values of the source are the ones the model evaluates at: `old·(1+d)` and `old·(1−d)` in all three
+    routines (`varElasticityOf`, `parTry`, `respTry` are written with exactly these terms) -/
+theorem C18_source_perturbations (old d : Rat) :
+    varUp old d = old * (1 + d) ∧ varLo old d = old * (1 - d) ∧ parUp old d = old * (1 + d) ∧
+    parLo old d = old * (1 - d) ∧ respUp old d = old * (1 + d) ∧ respLo old d = old * (1 - d) := by
+  refine ⟨?_, ?_, ?_, ?_, ?_, ?_⟩ <;> simp only [varUp, varLo, parUp, parLo, respUp, respLo]
+
+open Mxl.Generated.C18 in
+/-- structure of the source: both model-writing routines reset in a `finally:` (the models above branch on these
+    flags, the frame theorems need them to be `true`), and `parameter_elasticities` resolves `variables` once, before
+    the first perturbation, handing it to every flux evaluation -/
+theorem C18_source_structure :
+    parFinallyResets = true ∧ respFinallyRestores = true ∧ parStateResolvedOnce = true := by decide
+
 /-! ### the model is left as it was found -/
 
-/-- `parameter_elasticities`: parameters after = parameters before (indeed the whole model) -/
+/-- `parameter_elasticities`, ALL PATHS: whatever happens — a table is returned, an unknown parameter, a flux
+    evaluation that raises half-way through the perturbations — the model afterwards is the model before
+    (parameters, initial values, everything).  After the `try ... finally` repair. -/
+theorem C18_params_restored_always (c : Content) (toScan : Option (List Name)) (vars : Option Row) (t : Rat)
+    (normalized : Bool) (d : Rat) (hnd : (omKeys c.pars).Nodup) :
+    (parElasticitiesT c toScan vars t normalized d).1 = c := by
+  unfold parElasticitiesT rd
+  cases hr : resolveState c vars with
+  | error e => rfl
+  | ok vs =>
+    simp only [Run.bind]
+    exact foldColsT_frame _ (fun c => (omKeys c.pars).Nodup)
+      (fun c p hP => parElasticityOfT_frame vs t normalized d c p hP) _ c hnd
+
+/-- `parameter_elasticities`: parameters after = parameters before (the returning path, as a corollary) -/
 theorem C18_params_restored (c c' : Content) (toScan : Option (List Name)) (vars : Option Row) (t : Rat)
     (normalized : Bool) (d : Rat) (tbl : List (Name × Column)) (hnd : (omKeys c.pars).Nodup)
     (h : parElasticities c toScan vars t normalized d = .ok (c', tbl)) : c' = c := by
   unfold parElasticities at h
-  obtain ⟨vs, _, h⟩ := bind_ok h
-  exact foldCols_restores _ (fun c => (omKeys c.pars).Nodup)
-    (fun c p c' col hP hf => parElasticityOf_restores vs t normalized d c c' p col hP hf) _ c c' tbl hnd h
+  rw [← toExcept_ok h]
+  exact C18_params_restored_always c toScan vars t normalized d hnd
+
+/-! why the `finally` is needed (a witness, evaluated by the kernel) -/
+
+def wContent : Content :=
+  { vars := [("x", .plain 1)], pars := [("k", .plain 2)],
+    rxns := [("v", { rate := { args := ["k", "x"], fn := fun xs => xs.getD 0 0 * xs.getD 1 0 }, stoich := [("x", .num (-1))] })] }
+
+def plainPar (c : Content) (k : Name) : Option Rat :=
+  match c.pars.lookup k with
+  | some (.plain v) => some v
+  | _ => none
+
+def raised {α : Type} (r : Run α) : Bool := match r.2 with | .error _ => true | .ok _ => false
+
+/-- custom variables `{}` for a rate that reads `x`: the flux evaluation after the upward perturbation raises.
+    The `try` block alone (the code before the repair) leaves `k = 2·(1 + 1/2) = 3` behind; the routine with
+    its `finally` raises too and leaves `k = 2`. -/
+theorem C18_finally_needed :
+    raised (parTry [] 0 (1/2) 2 wContent "k") = true ∧ plainPar (parTry [] 0 (1/2) 2 wContent "k").1 "k" = some 3 ∧
+    raised (parElasticityOfT [] 0 true (1/2) wContent "k") = true ∧
+    plainPar (parElasticityOfT [] 0 true (1/2) wContent "k").1 "k" = some 2 := by
+  refine ⟨?_, ?_, ?_, ?_⟩ <;> decide +kernel
 
 /-- the executed steady-state worker satisfies the contract the next theorems assume -/
 theorem C18_worker_contract (cfg : EulerCfg) : WorkerOK (ssWorker cfg) := ssWorker_ok cfg
 
-/-- `_response_coefficient_worker`: parameters AND initial values after = before (full statement,
-    after the fix), with or without custom variables, normalised or not, whether the steady-state
-    runs succeed or yield NaN placeholders. -/
+/-- `_response_coefficient_worker`, ALL PATHS: parameters AND initial values after = before — with or without custom
+    variables, normalised or not, whether the steady-state runs succeed, yield NaN placeholders or RAISE, whether a
+    view or an update raises.  After the `try ... finally` repair. -/
+theorem C18_inits_restored_always (w : Worker) (hw : WorkerOK w) (y0 : Option Row) (normalized : Bool) (d : Rat)
+    (c : Content) (par : Name) (hnd : (omKeys c.pars).Nodup) :
+    (responseWorkerT w y0 normalized d c par).1 = c :=
+  responseWorkerT_frame w hw y0 normalized d c par hnd
+
+/-- … the returning path as a corollary -/
 theorem C18_inits_restored (w : Worker) (hw : WorkerOK w) (y0 : Option Row) (normalized : Bool) (d : Rat)
     (c c' : Content) (par : Name) (col : Column) (hnd : (omKeys c.pars).Nodup)
     (h : responseWorker w y0 normalized d c par = .ok (c', col)) : c' = c :=
   responseWorker_restores w hw y0 normalized d c c' par col hnd h
 
-/-- `response_coefficients(parallel=False)`: the caller's model is untouched after the whole loop -/
+/-- `response_coefficients(parallel=False)`, ALL PATHS: the caller's model is untouched after the whole loop, also
+    when it ends with an exception at some parameter -/
+theorem C18_response_seq_restores_always (w : Worker) (hw : WorkerOK w) (y0 : Option Row) (normalized : Bool) (d : Rat)
+    (c : Content) (toScan : Option (List Name)) (hnd : (omKeys c.pars).Nodup) :
+    (responseSeqT w y0 normalized d c toScan).1 = c :=
+  foldColsT_frame _ (fun c => (omKeys c.pars).Nodup)
+    (fun c p hP => responseWorkerT_frame w hw y0 normalized d c p hP) _ c hnd
+
 theorem C18_response_seq_restores (w : Worker) (hw : WorkerOK w) (y0 : Option Row) (normalized : Bool) (d : Rat)
     (c c' : Content) (toScan : Option (List Name)) (tbl : List (Name × Column)) (hnd : (omKeys c.pars).Nodup)
-    (h : responseSeq w y0 normalized d c toScan = .ok (c', tbl)) : c' = c :=
-  foldCols_restores _ (fun c => (omKeys c.pars).Nodup)
-    (fun c p c' col hP hf => responseWorker_restores w hw y0 normalized d c c' p col hP hf) _ c c' tbl hnd h
+    (h : responseSeq w y0 normalized d c toScan = .ok (c', tbl)) : c' = c := by
+  unfold responseSeq at h
+  rw [← toExcept_ok h]
+  exact C18_response_seq_restores_always w hw y0 normalized d c toScan hnd
 
 /-- sequential = parallel, for every worker count and schedule: same coefficients, same error if a
     parameter fails, same (untouched) model. -/
@@ -131,8 +286,10 @@ theorem C18_seq_eq_par (assign : List Nat) (n : Nat) (hn : 0 < n) (w : Worker) (
     (y0 : Option Row) (normalized : Bool) (d : Rat) (c : Content) (toScan : Option (List Name))
     (hnd : (omKeys c.pars).Nodup) :
     responseSeq w y0 normalized d c toScan = responsePar assign n w y0 normalized d c toScan := by
-  unfold responseSeq responsePar
+  unfold responseSeq responseSeqT responsePar
+  rw [foldColsT_toExcept]
   rw [schedMap_eq_map assign n hn]
+  show foldCols (responseWorker w y0 normalized d) c _ = _
   rw [foldCols_eq_mapM _ c (fun p c' col hf => responseWorker_restores w hw y0 normalized d c c' p col hnd hf)]
   rw [List.mapM_map]
   rfl
